@@ -839,9 +839,10 @@ class ParallelProcess(Process):
     @property
     def parameters(self) -> Dict[str, Any]:
         # While a command is in flight (e.g. when the process is
-        # emitted during its update) the worker cannot be asked: the
-        # parent keeps the parameters it last saw.
-        if not self._pending_command:
+        # emitted during its update), and once the worker has ended,
+        # the worker cannot be asked: the parent keeps the parameters it
+        # last saw.
+        if not self._pending_command and not self._ended:
             self._process_parameters = self.run_command('parameters')
         return self._process_parameters
 
